@@ -288,11 +288,11 @@ def main():
         if touches_data or name in ("gd_delete", "gd_rename", "gd_seek64", "gd_flush", "gd_sync", "gd_raw_close"):
             # the same operation after reads have opened the data files
             variants.append(("after-reads ", "none", READS))
-            if "sraw" in line or "xph" in line or "xlc" in line or "xbit" in line or "sph" in line or model in (None,) or "R1" in (model or "") or (model or "").endswith((" 1 1", "1 0 1")):
+            if (model or "").startswith(("put ", "seekw", "dedit")) or name in ("gd_delete", "gd_rename", "gd_seek64", "gd_flush", "gd_sync", "gd_raw_close"):
                 variants.append(("after-reads, fragment 1 text-encoded ", "text", READS))
         for tag, enc1, pre in variants:
             cases.append({"id": "P%d" % len(cases), "mode": mode, "p0": p0, "p1": p1, "enc1": enc1, "line": line, "name": name, "model": model, "tag": tag,
-                          "cmds": (["rmfile nofile", "rmfile sub/snofile"] if "nofile" in line else []) + pre +
+                          "cmds": (["rmfile nofile", "rmfile sub/snofile", "rmfile sub/snofile.txt"] if "nofile" in line else []) + pre +
                                   ["dump", "op " + line, "close", "reopen RDONLY", "dump"]})
     res = c10.run_cases(exe, cases)
     chk.cov["evaluations"] = len(cases)
@@ -365,7 +365,10 @@ def main():
             agree = (err == ERR[mres]) if mres in ERR else (err not in (0, -13, -22))
             region_ok = set(ch_meta) <= set(mm) and set(ch_data) <= set(md)
             if not agree or not region_ok:
-                if not bad and c["name"] == "gd_madd_alias" and err == -22:
+                if not bad and c["name"] == "gd_add_alias" and "/" in c["line"].split()[1] and err == -22:
+                    V_("C11/format-protected-changed/gd_add_alias", "%s is refused with GD_E_PROTECTED although the parent's fragment is not protected "
+                       "(the protection of the fragment index passed is tested instead of the parent's)" % what, c, rp)
+                elif not bad and c["name"] == "gd_madd_alias" and err == -22:
                     # the other face of the recorded defect: the wrong fragment's protection is tested
                     V_("C11/format-protected-changed/gd_madd_alias", "%s is refused with GD_E_PROTECTED although the parent's fragment is not protected "
                        "(the protection of fragment 0 is tested instead)" % what, c, rp)
